@@ -747,8 +747,12 @@ class PyFlow:
             idx = self._pure(t.slice, q)
             q.effects.append(Ev("store", show(base), [idx, v], recv=base, node=node, op="="))
         elif isinstance(t, (ast.Tuple, ast.List)):
+            ta = single_atom(v)
             for i, x in enumerate(t.elts):
-                self._bind(x, Poly.atom(("item", v, i)), q, node)
+                if ta is not None and ta[0] == "tuple" and len(ta[1]) == len(t.elts):
+                    self._bind(x, ta[1][i], q, node)
+                else:
+                    self._bind(x, Poly.atom(("item", v, i)), q, node)
 
     def _const(self, name: str, p: Path) -> Optional[Poly]:
         if name not in self.consts or name in self._const_busy:
@@ -1453,6 +1457,13 @@ class PyFlow:
             return [(q, vmin(vals)) for q, vals in self.ev_many(e.args, p, depth, no_effect=no_effect)]
         if fname == "max" and isinstance(f, ast.Name) and len(e.args) >= 2:
             return [(q, call("max", *vals)) for q, vals in self.ev_many(e.args, p, depth, no_effect=no_effect)]
+        if fname == "divmod" and isinstance(f, ast.Name) and len(e.args) == 2 and not e.keywords and "divmod" not in self.funcs:
+            # divmod(a, b) is (a // b, a % b)
+            syn_q = ast.copy_location(ast.BinOp(left=e.args[0], op=ast.FloorDiv(), right=e.args[1]), e)
+            syn_r = ast.copy_location(ast.BinOp(left=e.args[0], op=ast.Mod(), right=e.args[1]), e)
+            syn_t = ast.copy_location(ast.Tuple(elts=[syn_q, syn_r], ctx=ast.Load()), e)
+            ast.fix_missing_locations(syn_t)
+            return self.ev(syn_t, p, depth, no_effect=no_effect)
         if fname == "int" and isinstance(f, ast.Name) and len(e.args) == 1:
             a0 = e.args[0]
             if isinstance(a0, ast.BinOp) and isinstance(a0.op, ast.Div):
@@ -1562,6 +1573,10 @@ class PyFlow:
         alias_recv: Optional[Poly] = None
         if isinstance(f, ast.Name) and f.id in p.env and f.id not in self.funcs and f.id not in p.funcs:
             fa = single_atom(p.env[f.id])
+            if fa is not None and fa[0] == "var" and "." not in fa[1] and fa[1] != f.id and (fa[1] in self.funcs or fa[1] in p.funcs or fa[1] in self.primitives or fa[1] in self.pure) and fa[1] not in p.env:
+                # a module-level function held in a local (picked once before a loop): the call is a call of it
+                syn_f = ast.copy_location(ast.Call(func=ast.copy_location(ast.Name(id=fa[1], ctx=ast.Load()), f), args=e.args, keywords=e.keywords), e)
+                return self.call(syn_f, p, depth, stmt_pos, no_effect)
             if fa is not None and fa[0] == "var" and "." in fa[1]:
                 alias_name, alias_recv = fa[1].rsplit(".", 1)[1], V(fa[1].rsplit(".", 1)[0])
             elif fa is not None and fa[0] == "attr" and isinstance(fa[2], str):
